@@ -180,6 +180,7 @@ type vfMetaServed struct {
 }
 
 type vfSimConn struct {
+	silent       int32
 	id           int
 	broker       *vfBrokerState
 	conn         *vfConn
@@ -203,6 +204,11 @@ func newVfSim(nBrokers int) *vfSim {
 		groups:  map[string]*vfGroupState{},
 	}
 	s.cond = sync.NewCond(&s.mu)
+	s.net.onDial = func(addr string, ok bool) {
+		if !ok {
+			s.ev(vfEvent{Kind: "dial-refused", Note: addr}, true) // a client that keeps dialling is not hung
+		}
+	}
 	for i := 1; i <= nBrokers; i++ {
 		s.addBroker(int32(i))
 	}
@@ -427,7 +433,39 @@ func (s *vfSim) setBrokerUp(id int32, up bool) {
 	for _, c := range toClose {
 		c.conn.Close()
 	}
-	s.ev(vfEvent{Kind: "broker-" + map[bool]string{true: "up", false: "down"}[up], Broker: id}, true)
+	var ids []int
+	for _, c := range toClose {
+		ids = append(ids, c.id)
+	}
+	s.ev(vfEvent{Kind: "broker-" + map[bool]string{true: "up", false: "down"}[up], Broker: id, Ids: ids}, true)
+}
+
+// makeUnreachable: every broker refuses new connections and drops the open ones ("refuse"), or keeps accepting
+// but never answers again ("silent").
+func (s *vfSim) makeUnreachable(kind string) {
+	s.mu.Lock()
+	var ids []int32
+	for id, b := range s.brokers {
+		ids = append(ids, id)
+		if kind == "silent" {
+			b.Silent = true
+		}
+	}
+	var conns []*vfSimConn
+	for _, c := range s.conns {
+		conns = append(conns, c)
+	}
+	s.mu.Unlock()
+	s.ev(vfEvent{Kind: "cluster-unreachable", Note: kind}, true)
+	if kind == "silent" {
+		for _, c := range conns {
+			c.setSilent()
+		}
+		return
+	}
+	for _, id := range ids {
+		s.setBrokerUp(id, false)
+	}
 }
 
 func (s *vfSim) moveLeader(topic string, part int32, to int32) {
@@ -481,12 +519,15 @@ func (s *vfSim) accept(b *vfBrokerState, server *vfConn) {
 				if _, err := server.Read(buf); err != nil {
 					return
 				}
+				s.ev(vfEvent{Kind: "swallowed", Broker: b.ID, Conn: c.id}, true)
 			}
 		}()
 		return
 	}
 	go c.serve()
 }
+
+func (c *vfSimConn) setSilent() { atomic.StoreInt32(&c.silent, 1) }
 
 func (c *vfSimConn) serve() {
 	s := c.sim
@@ -510,6 +551,12 @@ func (c *vfSimConn) serve() {
 		payload := make([]byte, n)
 		if _, err := io.ReadFull(c.conn, payload); err != nil {
 			return
+		}
+		if atomic.LoadInt32(&c.silent) == 1 {
+			// the broker fell silent: requests are swallowed, nothing is ever answered. The client keeps trying at its
+			// read-timeout pace, which is activity as far as the quiescence rule is concerned.
+			s.ev(vfEvent{Kind: "swallowed", Broker: c.broker.ID, Conn: c.id}, true)
+			continue
 		}
 		atomic.AddInt64(&s.pending, 1)
 		keep := c.handle(payload, n+4)
@@ -579,6 +626,9 @@ func (c *vfSimConn) handle(payload []byte, wireSize int) bool {
 				return false
 			}
 		}
+	}
+	if atomic.LoadInt32(&c.silent) == 1 {
+		return true
 	}
 	if _, err := c.conn.Write(vfref.Frame(corr, respHV, resp)); err != nil {
 		return false
